@@ -299,6 +299,16 @@ class FakeChannel:
         self.server.queues.pop(queue, None)
         return spec.Queue.DeleteOk(message_count=0)
 
+    def queue_deleted_at_server(self, queue: str) -> None:
+        """the queue disappears at the server (deleted, node lost): its consumers on this channel are cancelled server-side —
+        aiormq pops their callbacks from `channel.consumers` — and a new basic_consume on it fails with NOT_FOUND"""
+        q = self.server.queues.pop(queue, None)
+        if q is None:
+            return
+        for ch, tag, _cb in q.consumers:
+            if ch is self:
+                self.consumers.pop(tag, None)
+
     def close_from_server(self) -> None:
         """channel/connection death: every unacked delivery of this channel returns to its queue"""
         self.closed = True
